@@ -304,7 +304,7 @@ func c17Gen(r *vfRand, size int) c17Case {
 		c.R = 20
 	}
 	c.IntervalS = []int64{1800, 3600, 7200, 22 * 3600}[r.Intn(4)]
-	c.MaxDelayS = c.IntervalS / []int64{20, 10, 4}[r.Intn(3)]
+	c.MaxDelayS = c.IntervalS / []int64{20, 10}[r.Intn(2)]
 	c.OfflineDelayS = []int64{0, 600, 7200, 2 * c.IntervalS}[r.Intn(4)]
 	c.CheckIntervalS = []int64{1, 30, 60}[r.Intn(3)]
 	c.MaxWorkers = 1 + r.Intn(6)
@@ -316,8 +316,11 @@ func c17Gen(r *vfRand, size int) c17Case {
 		c.Burst--
 	}
 	c.Conns = []int{1, 2, 5, 20}[r.Intn(4)]
-	c.GraceS = 7 * 60
-	c.WindowMs = 0
+	// lookups take virtual time in 4 of 10 cases: provide jobs then overlap, queue up behind
+	// the workers, and a Close finds work in flight and in the provide queue
+	c.RouterLatMs = []int64{0, 0, 0, 0, 0, 0, 100, 500, 1000, 2000}[r.Intn(10)]
+	c.WindowMs = c.RouterLatMs * 10
+	c.GraceS = 7*60 + c.RouterLatMs*400/1000
 
 	// initial swarm and keys
 	cur := c17Pick(r, 1+r.Intn(c.NPeers), c.NPeers)
@@ -326,6 +329,7 @@ func c17Gen(r *vfRand, size int) c17Case {
 	frac := func() int64 { return 1 + int64(r.Intn(int(I/2))) }
 	nsteps := 4 + r.Intn(10)
 	kept := map[int]bool{}
+	offGiven := map[int]bool{}
 	up := true
 	for s := 0; s < nsteps; s++ {
 		st := c17Step{Sleep: frac()}
@@ -339,6 +343,19 @@ func c17Gen(r *vfRand, size int) c17Case {
 			st.Keys = c17Pick(r, 1+r.Intn(c.NKeys), c.NKeys)
 			for _, k := range st.Keys {
 				kept[k] = true
+				// A key first given during an outage is stored but only advertised at its
+				// schedule slot, and a later StartProviding(false) finds it "already
+				// provided": such keys are given again with force (see ASSUMPTIONS).
+				if !up {
+					offGiven[k] = true
+				} else if offGiven[k] {
+					st.Act = "force"
+				}
+			}
+			if up && st.Act == "force" {
+				for _, k := range st.Keys {
+					delete(offGiven, k)
+				}
 			}
 		case x < 38:
 			st.Act = "once"
@@ -348,6 +365,7 @@ func c17Gen(r *vfRand, size int) c17Case {
 			st.Keys = c17Pick(r, 1+r.Intn(1+c.NKeys/3), c.NKeys)
 			for _, k := range st.Keys {
 				delete(kept, k)
+				delete(offGiven, k)
 			}
 		case x < 70:
 			st.Act = "swarm"
@@ -403,6 +421,21 @@ func c17Scenario(i int) (c17Case, string) {
 			{Sleep: 1200, Act: "swarm", Peers: all(40)},
 			{Sleep: 4 * 3600, Act: "none"}}
 		return c, "single-region-split"
+	}
+	if i == 2 {
+		// work queued and in flight at Close is resumed by the next New on the same datastore:
+		// 2 s per lookup, one worker, 60 keys over ~10 regions, Close 3 s after StartProviding
+		c.NKeys, c.NPeers, c.R = 60, 40, 2
+		c.MaxWorkers, c.Periodic, c.Burst = 1, 0, 0
+		c.RouterLatMs, c.WindowMs, c.GraceS = 2000, 20000, 7*60+800
+		// the first half of the keys is given and reprovided once, so that every region
+		// counts as recently reprovided at the restart (no bootstrap reprovide hides the queue)
+		c.Steps = []c17Step{{Act: "swarm", Peers: all(40)}, {Act: "net", Up: true},
+			{Sleep: 600, Act: "start", Keys: all(30)},
+			{Sleep: 4200, Act: "start", Keys: all(60)[30:]},
+			{Sleep: 3, Act: "restart"},
+			{Sleep: 2 * 3600, Act: "none"}}
+		return c, "resume-after-restart"
 	}
 	c.NKeys, c.NPeers, c.R = 10, 40, 1
 	c.Steps = []c17Step{{Act: "swarm", Peers: all(40)}, {Act: "net", Up: true},
@@ -500,6 +533,17 @@ func c17Run(t *testing.T, r *vfRand, c c17Case, keys []mh.Multihash, peers []pee
 			synctest.Wait()
 			switch st.Act {
 			case "swarm":
+				// the swarm only changes while no lookup or message is in flight
+				for w := 0; w < 3600; w++ {
+					env.mu.Lock()
+					busy := env.inFlight > 0
+					env.mu.Unlock()
+					if !busy {
+						break
+					}
+					time.Sleep(time.Second)
+					synctest.Wait()
+				}
 				env.mu.Lock()
 				env.swarm = nil
 				ids := make([]uint32, len(st.Peers))
@@ -879,8 +923,8 @@ func TestVerifC17(t *testing.T) {
 			size = 1
 		}
 		c := c17Gen(r, size)
-		if i < 2 {
-			// two fixed scenarios (the same in every run): minimal replays of two schedule defects
+		if i < 3 {
+			// three fixed scenarios (the same in every run): minimal replays of two schedule defects
 			r = vfNewRand(0xc17 + uint64(i))
 			c, scenario = c17Scenario(i)
 		}
@@ -911,7 +955,8 @@ func TestVerifC17(t *testing.T) {
 		cs.Count("trace-events", nev)
 		cs.Count("add-provider-messages", res.nSent)
 		cs.Count("router-calls", res.nRouter)
-		idx := cs.Add(fmt.Sprintf("CTrace %s\n %s %s", params, tr, vfBool(res.fail != "")),
+		d2 := (c.IntervalS+c.MaxDelayS+c.IntervalS/2)*1000000 + c.WindowMs*1000
+		idx := cs.Add(fmt.Sprintf("CTrace %s %d\n %s %s", params, d2, tr, vfBool(res.fail != "")),
 			map[string]any{"case": 100000 + i, "seed": seed, "kind": "trace", "config": c, "events": len(res.events),
 				"sent": res.nSent, "end_us": res.endUs, "fail": res.fail, "unknown_sends": res.unknown,
 				"misrouted": misrouted, "misrouted_explained_by_alloc_depth": explained, "scenario": scenario}, s)
